@@ -96,8 +96,11 @@ Inductive unop := UNeg | UPos.
      YLow i    the low byte of the i-th int local:  `(x is byte) is int` ByteToInt(IntToByte(VariableLookup)):
                Indirect.access_byte() = IndirectByte at the same offset (little endian) *)
 Inductive yloc := YSlot (j : nat) | YLow (i : nat).
-Inductive iopd := OLit (z : Z) | OVar (i : nat) | OArith (op : src_arith) (x y : iopd) | OUn (u : unop) (x : iopd)
+Inductive iopd := OLit (ch : bool) (z : Z)   (* ch: a char literal used as an int (IntLiteral(.., is_char)): printed 'c' *)
+               | OVar (i : nat) | OArith (op : src_arith) (x y : iopd) | OUn (u : unop) (x : iopd)
                | OGlob (g : nat)             (* the g-th int global (not const): State(var_<name>_0), volatile *)
+               | OTrunc (o : iopd)           (* `(o is byte) is int`: ByteToInt(IntToByte(o)): o is lowered as usual,
+                                                then its bubble is read through byte access (o mod 256) *)
                | OByte (v : yloc).           (* a byte of the frame read as an int, zero-extended with lbso:
                                                 IndirectByte(STATE, [fp], -off) *)
 (* where a bool variable lives: a byte of the frame (IndirectByte) or a byte global (StateByte) *)
@@ -148,7 +151,7 @@ Definition arith_instr (op : src_arith) : aop :=
 
 (* ---------- operands ---------- *)
 (* is_safe: PrimitiveValue or VariableLookup (a cast node -- OByte -- is not) *)
-Definition is_safe (o : iopd) : bool := match o with OLit _ | OVar _ | OGlob _ => true | _ => false end.
+Definition is_safe (o : iopd) : bool := match o with OLit _ _ | OVar _ | OGlob _ => true | _ => false end.
 Definition reg_eqb (a b : reg) : bool :=
   match a, b with
   | RAp, RAp | RFp, RFp | R0, R0 | R1, R1 | R2, R2 | RDefeat, RDefeat => true
@@ -161,20 +164,34 @@ Definition is_state_of (r : reg) (v : sym) : bool := match v with SReg r' => reg
 
 (* the ValueBubble eval_expr returns, as far as F_model needs it *)
 Inductive bubble :=
-| BuImm (z : Z)          (* vacuous, IntLiteral *)
+| BuImm (ch : bool) (z : Z)   (* vacuous, IntLiteral (is_char = ch) *)
 | BuLocal (yb : bool) (off : Z)  (* vacuous, Indirect / IndirectByte (yb) (STATE, [fp], -off): a local, never volatile *)
 | BuReg (r : reg)        (* vacuous, State(r): volatile *)
-| BuPushed (off : Z).    (* push_value: a reserved word at frame offset off *)
+| BuPushed (off : Z)     (* push_value: a reserved word at frame offset off *)
+| BuRegB (r : reg)       (* State(r).access_byte() = StateByte(r): the low byte of the word r *)
+| BuPushedB (off : Z).   (* a pushed word under byte access: IndirectByte at the same offset *)
+(* Accessor.access_byte (IntToByte): IntLiteral is masked; Indirect -> IndirectByte; State -> StateByte *)
+Definition to_byte (b : bubble) : bubble :=
+  match b with
+  | BuImm ch z => BuImm ch (z mod 256)
+  | BuLocal _ off => BuLocal true off
+  | BuReg r => BuRegB r
+  | BuPushed off => BuPushedB off
+  | _ => b
+  end.
+(* an IntLiteral as an operand: a char literal keeps its spelling *)
+Definition lit_sym (ch : bool) (z : Z) : sym := if ch then SChar z else SLit z.
 (* pop_value(r, bubble): release the bubble (no code: no arrays here), then bubble.value.get(r) *)
 Definition pop_value (r : reg) (b : bubble) : list aline * sym :=
   match b with
-  | BuImm z => ([], SLit z)
+  | BuImm ch z => ([], lit_sym ch z)
   | BuLocal false off | BuPushed off => ([AInstr (ALwso r (SReg RFp) (SLit (- off)))], SReg r)
-  | BuLocal true off => ([AInstr (ALbso r (SReg RFp) (SLit (- off)))], SReg r)       (* IndirectByte.get *)
+  | BuLocal true off | BuPushedB off => ([AInstr (ALbso r (SReg RFp) (SLit (- off)))], SReg r)   (* IndirectByte.get *)
+  | BuRegB r' => ([AInstr (ALbs r (SRegAddr r'))], SReg r)                              (* StateByte.get *)
   | BuReg r' => ([], SReg r')
   end.
 (* self.stack.offset while the bubble is live *)
-Definition top_after (top : Z) (b : bubble) : Z := match b with BuPushed off => off | _ => top end.
+Definition top_after (top : Z) (b : bubble) : Z := match b with BuPushed off | BuPushedB off => off | _ => top end.
 
 (* the tail of eval_expr: result = State(r_out); vacuous unless keep, else push_value *)
 Definition finish_opd (E : env) (top : Z) (r_out : reg) (keep : bool) (code : list aline) : list aline * bubble :=
@@ -185,9 +202,10 @@ Definition finish_opd (E : env) (top : Z) (r_out : reg) (keep : bool) (code : li
 (* eval_expr(r_out, o, keep) for int operands; top = self.stack.offset on entry *)
 Fixpoint eval_opd (E : env) (top : Z) (r_out : reg) (o : iopd) (keep : bool) : list aline * bubble :=
   match o with
-  | OLit z => ([], BuImm z)
+  | OLit ch z => ([], BuImm ch z)
   | OVar i => ([], BuLocal false (int_off E i))
   | OByte v => ([], BuLocal true (byte_off E v))
+  | OTrunc x => let (c, bub) := eval_opd E top r_out x keep in (c, to_byte bub)
   | OGlob g =>                       (* VariableLookup of a non-const global: volatile, pushed if kept *)
       if keep then ([AInstr (ASwso (SReg RFp) (SLit (- (top + wsize E))) (SReg (RGlob g)))], BuPushed (top + wsize E))
       else ([], BuReg (RGlob g))
@@ -222,16 +240,17 @@ Definition compare_operands (E : env) (a b : iopd) : list aline * sym * sym :=
    stack top at any moment (LowerBoolProofs.eval_opd_stores: every `swso [fp], -off, _` of the
    emitted code has top < off <= top + temps * w, and the bound is attained) *)
 Definition is_glob (o : iopd) : bool := match o with OGlob _ => true | _ => false end.
-Definition is_vac (o : iopd) : bool := match o with OLit _ | OVar _ | OByte _ => true | _ => false end.
+Fixpoint is_vac (o : iopd) : bool := match o with OLit _ _ | OVar _ | OByte _ => true | OTrunc x => is_vac x | _ => false end.
 Definition pushed (o : iopd) (keep : bool) : nat := if keep && negb (is_vac o) then 1%nat else 0%nat.
 Fixpoint temps (o : iopd) (keep : bool) : nat :=
   match o with
-  | OLit _ | OVar _ | OByte _ => 0%nat
+  | OLit _ _ | OVar _ | OByte _ => 0%nat
   | OGlob _ => if keep then 1%nat else 0%nat
   | OArith _ x y =>
       let kx := negb (is_safe y) in
       Nat.max (Nat.max (temps x kx) (pushed x kx + temps y false)) (if keep then 1%nat else 0%nat)
   | OUn _ x => Nat.max (temps x false) (if keep then 1%nat else 0%nat)
+  | OTrunc x => temps x keep
   end.
 Definition temps_cmp (a b : iopd) : nat :=
   let ka := negb (is_safe b) in Nat.max (temps a ka) (pushed a ka + temps b false).
